@@ -92,6 +92,13 @@ Theorem C16_floats_correctly_rounded : forall a b m k, (0 < a)%Z -> (0 < b)%Z ->
 Proof. exact rnd64_spec. Qed.
 Print Assumptions C16_floats_correctly_rounded.
 
+(* hence every conversion and every arithmetic step is off by at most 2^-53 relatively (stated on the scaled fraction) *)
+Theorem C16_float_relative_error : forall a b m k, (0 < a)%Z -> (0 < b)%Z -> rnd64 a b = Some (m, k) ->
+  exists e0 p q c, scaled2 a b e0 = (p, q) /\ (0 < q)%Z /\ (c = 1 \/ c = 2)%Z /\ k = (e0 - 52 + (if c =? 1 then 0 else 1))%Z /\
+                   (2 ^ 53 * Z.abs (p - q * (m * c)) <= p)%Z.
+Proof. exact rnd64_relative_error. Qed.
+Print Assumptions C16_float_relative_error.
+
 (* the numbers of a normalised table as CPython 3.12 shows them: float(literal), compensated sum, division, "{:.7g}" *)
 Example C16_float_example :
   shown_texts {| o_print_model := false; o_photos_kw := false; o_ascending := false; o_normalize := true; o_scale := None |}
